@@ -411,10 +411,18 @@ func (b *Broker) proxyOut(
 		for nil == ctx.Err() && nil == err {
 			n, err = r.Read(buf) /* Try to read a bit. */
 			if 0 != n {          /* Send data if we have it. */
-				och <- outRet{o: string(buf[:n])}
+				select {
+				case och <- outRet{o: string(buf[:n])}:
+				case <-ctx.Done(): /* Nobody's listening. */
+					return
+				}
 			}
 			if nil != err { /* And an error if we have one. */
-				och <- outRet{err: err}
+				select {
+				case och <- outRet{err: err}:
+				case <-ctx.Done(): /* Nobody's listening. */
+					return
+				}
 			}
 		}
 	}()
